@@ -25,6 +25,11 @@ code can throw.
 import re
 
 from spyne.util import six
+
+try:
+    RecursionError
+except NameError:  # Python 2
+    RecursionError = RuntimeError
 from spyne.model.fault import Fault
 
 
@@ -115,6 +120,14 @@ class ValidationError(Fault):
             msg = custom_msg % (obj,)
         except TypeError:
             msg = custom_msg
+        except RecursionError:
+            # repr() of a value that is nested deeper than the recursion limit
+            # (a yaml document gets that deep without the parser objecting)
+            try:
+                msg = custom_msg % ('<%s nested too deeply to print>'
+                                                     % type(obj).__name__,)
+            except TypeError:
+                msg = custom_msg
 
         # the message echoes request content, and it has to get back to the
         # client in whatever the output protocol is
